@@ -7,6 +7,7 @@ def jobs(tier):
     js = pipeline_jobs("c12", tier, relists=(None,), curated_relist=None)
     # inputs whose numbering differs from their listing order (e.g. the output of nx.relabel_nodes or of canonicalize_molecule)
     strata = [dict(name="S-shape/scrambled-labels", ns=[2, 3, 4], pin={4: 4}, params=dict(K_m=1, K_r=0, scramble=True))]
+    strata.append(dict(name="S-shape/labels-not-0..n-1", ns=[1, 2, 3], pin={}, params=dict(K_m=1, K_r=0, offset_labels=True)))
     js += shape_strata("harness.pipeline", "c12", tier, quick=strata, thorough=strata, max_seconds=3000 if tier == "thorough" else 240)
     return js
 
